@@ -401,7 +401,7 @@ def load_case_file(path):
 
 
 def write_replay(prop_id, clause, viol) -> str:
-    d = os.path.join(VERIF_DIR, "replays", prop_id)
+    d = os.path.join(VERIF_DIR, os.environ.get("VERIF_REPLAY_DIR", "replays"), prop_id)
     os.makedirs(d, exist_ok=True)
     h = hashlib.blake2b(canon([clause, viol["case"]]).encode(), digest_size=6).hexdigest()
     path = os.path.join(d, f"{clause}-{h}.json")
